@@ -595,6 +595,11 @@ def _nullness_const(self, v, frame):
     import ast as _ast
     if isinstance(v, _ast.Constant):
         return 'none' if v.value is None else ('c', repr(v.value))
+    if isinstance(v, _ast.UnaryOp) and isinstance(v.op, _ast.USub) and \
+            isinstance(v.operand, _ast.Constant) and \
+            isinstance(v.operand.value, (int, float)) and \
+            not isinstance(v.operand.value, bool):
+        return ('c', repr(-v.operand.value))
     if isinstance(v, _ast.Attribute) and isinstance(v.value, _ast.Name) and \
             self.e is not None:
         fc = frame.ctx.func.cls
